@@ -342,6 +342,8 @@ static FILE *g_resp_dump;
 #define RESP_LOG_MAX 400
 static uint32_t g_resp_log[RESP_LOG_MAX][3];   /* per response in a hashed run: command code, rc, crc of the bytes */
 
+extern int g_inFailureMode;
+static int g_trace_x;   /* C01: every command sent by a borrowed scenario is traced for the framing checker */
 static Rsp run_raw(const uint8_t *cmd, uint32_t n) {
     Rsp r; memset(&r, 0, sizeof r);
     uint32_t len = 0;
@@ -355,6 +357,7 @@ static Rsp run_raw(const uint8_t *cmd, uint32_t n) {
     else r.rc = 0xFFFFFFFF;
     g_n_cmds++; if (r.rc == 0) g_n_ok++;
     g_cmd_id++;
+    if (g_trace_x) { tr_begin("x loc=%d started=1 ret=%u bufsize=%u infail=%d", g_locality, r.ret, r.bufsize, g_inFailureMode); trhex("req", cmd, n); trhex("rsp", r.p, r.len); tr_end(); }
     if (g_resp_md) {
         uint32_t ccx = n >= 10 ? g32(cmd + 6) : 0;
         /* responses that legitimately contain host-side randomness (ECDSA nonces from OpenSSL) or raw structure padding
